@@ -18,6 +18,7 @@ AttrChoicesFull == {
     << [a |-> "spread", m |-> "M1"] >>,
     << [a |-> "const", n |-> "id", v |-> "k1"], [a |-> "spread", m |-> "M2"] >>,
     << [a |-> "class2"] >>,
+    << [a |-> "classkv", c |-> "C1"], [a |-> "boolc", n |-> "hidden"] >>,
     << [a |-> "cssclass"] >>,
     << [a |-> "scriptcall", n |-> "onclick"], [a |-> "const", n |-> "title", v |-> "k1"] >>,
     << [a |-> "scriptcall", n |-> "onclick"], [a |-> "scriptcall", n |-> "onfocus"] >>,
